@@ -14,6 +14,18 @@ def evaluate(e, env):
         try: base = evaluate(e.value, env)
         except Unsupported: raise Unsupported("attribute %s" % key)
         if isinstance(base, dict) and ("." + e.attr) in base: return base["." + e.attr]      # sample object: {'.attr': value}
+        if isinstance(base, InstObj):
+            if e.attr == "__dict__": return base.own
+            if e.attr == "__class__": return base.cls
+            f_, v_ = base.lookup(e.attr)
+            if f_: return v_
+            raise Raised("AttributeError")
+        if isinstance(base, ClassObj):
+            if e.attr == "__dict__": return base.own
+            if e.attr == "__name__": return base.name
+            f_, v_ = base.lookup(e.attr)
+            if f_: return v_
+            raise Raised("AttributeError")
         raise Unsupported("attribute %s" % key)
     if isinstance(e, (ast.ListComp, ast.GeneratorExp, ast.SetComp, ast.DictComp)):
         out = []
@@ -44,9 +56,10 @@ def evaluate(e, env):
         return v
     if isinstance(e, ast.UnaryOp) and isinstance(e.op, ast.Not): return not evaluate(e.operand, env)
     if isinstance(e, ast.UnaryOp) and isinstance(e.op, ast.USub): return -evaluate(e.operand, env)
-    if isinstance(e, ast.BinOp) and isinstance(e.op, ast.Add): return evaluate(e.left, env) + evaluate(e.right, env)
-    if isinstance(e, ast.BinOp) and isinstance(e.op, ast.Sub): return evaluate(e.left, env) - evaluate(e.right, env)
-    if isinstance(e, ast.BinOp) and isinstance(e.op, ast.Mult): return evaluate(e.left, env) * evaluate(e.right, env)
+    if isinstance(e, ast.BinOp) and isinstance(e.op, (ast.Add, ast.Sub, ast.Mult)):
+        l_, r_ = evaluate(e.left, env), evaluate(e.right, env)
+        try: return l_ + r_ if isinstance(e.op, ast.Add) else (l_ - r_ if isinstance(e.op, ast.Sub) else l_ * r_)
+        except TypeError: raise Raised("TypeError")
     if isinstance(e, ast.Compare) and len(e.ops) == 1:
         a, b = evaluate(e.left, env), evaluate(e.comparators[0], env); op = e.ops[0]
         if isinstance(op, ast.Eq): return a == b
@@ -59,8 +72,19 @@ def evaluate(e, env):
         if isinstance(op, ast.LtE): return a <= b
         if isinstance(op, ast.Gt): return a > b
         if isinstance(op, ast.GtE): return a >= b
-    if isinstance(e, (ast.Tuple, ast.List)): return [evaluate(x, env) for x in e.elts]
-    if isinstance(e, ast.Dict) and all(k is not None for k in e.keys): return {evaluate(k, env): evaluate(v, env) for k, v in zip(e.keys, e.values)}
+    if isinstance(e, (ast.Tuple, ast.List)):
+        out_ = []
+        for x in e.elts:
+            if isinstance(x, ast.Starred): out_.extend(list(evaluate(x.value, env)))
+            else: out_.append(evaluate(x, env))
+        return tuple(out_) if isinstance(e, ast.Tuple) else out_
+    if isinstance(e, ast.Lambda): return Closure(e, env)
+    if isinstance(e, ast.Dict):
+        d_ = {}
+        for k, v in zip(e.keys, e.values):
+            if k is None: d_.update(evaluate(v, env))
+            else: d_[evaluate(k, env)] = evaluate(v, env)
+        return d_
     if isinstance(e, ast.Subscript):
         v = evaluate(e.value, env)
         if isinstance(e.slice, ast.Slice):
@@ -78,7 +102,7 @@ def evaluate(e, env):
             recv = evaluate(e.func.value, env)
             if not isinstance(recv, str): raise Unsupported("method call on a non-string")
             return getattr(recv, e.func.attr)(*[evaluate(a, env) for a in e.args])      # Python's own str semantics (trusted base)
-        if isinstance(e.func, ast.Name) and e.func.id in ("len", "str", "bool", "list", "tuple", "sorted", "set", "dict", "id", "type", "any", "all", "sum", "min", "max") and not e.keywords: return {"any": any, "all": all, "sum": sum, "min": min, "max": max, "len": len, "str": str, "bool": bool, "list": list, "tuple": tuple, "sorted": sorted, "set": set, "dict": dict, "id": id, "type": lambda o: o.get(".__class__") if isinstance(o, dict) and ".__class__" in o else type(o)}[e.func.id](*[evaluate(a, env) for a in e.args])
+        if isinstance(e.func, ast.Name) and e.func.id in ("len", "str", "bool", "list", "tuple", "sorted", "set", "dict", "id", "type", "any", "all", "sum", "min", "max") and not e.keywords: return {"any": any, "all": all, "sum": sum, "min": min, "max": max, "len": len, "str": str, "bool": bool, "list": list, "tuple": tuple, "sorted": sorted, "set": set, "dict": dict, "id": id, "type": lambda o: o.cls if isinstance(o, InstObj) else (o.get(".__class__") if isinstance(o, dict) and ".__class__" in o else type(o))}[e.func.id](*[evaluate(a, env) for a in e.args])
         if isinstance(e.func, ast.Attribute) and e.func.attr in ("items", "keys", "values", "get", "pop", "clear", "setdefault") and not e.keywords:
             recv = evaluate(e.func.value, env)
             if isinstance(recv, dict) and not any(isinstance(k_, str) and k_.startswith(".") for k_ in recv):
@@ -90,6 +114,22 @@ def evaluate(e, env):
             if isinstance(recv, list):
                 try: return getattr(recv, e.func.attr)(*[evaluate(a, env) for a in e.args])
                 except ValueError: raise Raised("ValueError")
+        if isinstance(e.func, ast.Name) and e.func.id in ("setattr", "delattr", "hasattr", "getattr") and e.args and isinstance(evaluate(e.args[0], env), (ClassObj, InstObj)):
+            c_ = evaluate(e.args[0], env); n_ = evaluate(e.args[1], env)
+            if e.func.id == "setattr": c_.own[n_] = evaluate(e.args[2], env); return None
+            if e.func.id == "delattr":
+                if n_ not in c_.own: raise Raised("AttributeError")
+                del c_.own[n_]; return None
+            f_, v_ = c_.lookup(n_)
+            if e.func.id == "hasattr": return f_
+            if f_: return v_
+            if len(e.args) == 3: return evaluate(e.args[2], env)
+            raise Raised("AttributeError")
+        if isinstance(e.func, ast.Name) and e.func.id == "locals" and not e.args: return env
+        if isinstance(e.func, ast.Name) and e.func.id == "delattr" and len(e.args) == 2:
+            base = evaluate(e.args[0], env); key = "." + evaluate(e.args[1], env)
+            if not isinstance(base, dict) or key not in base: raise Raised("AttributeError")
+            del base[key]; return None
         if isinstance(e.func, ast.Name) and e.func.id == "setattr" and len(e.args) == 3:
             base = evaluate(e.args[0], env)
             if not isinstance(base, dict): raise Unsupported("setattr on " + type(base).__name__)
@@ -101,6 +141,17 @@ def evaluate(e, env):
             if has: return base[key]
             if len(e.args) == 3: return evaluate(e.args[2], env)
             raise Raised("AttributeError")
+        if isinstance(e.func, ast.Name) and e.func.id == "next" and 1 <= len(e.args) <= 2 and not e.keywords:
+            it_ = evaluate(e.args[0], env)
+            if not isinstance(it_, list): raise Unsupported("next() on " + type(it_).__name__)
+            if it_: return it_[0]                      # generator expressions are evaluated eagerly to lists: next() takes the first element
+            if len(e.args) == 2: return evaluate(e.args[1], env)
+            raise Raised("StopIteration")
+        if isinstance(e.func, ast.Name) and e.func.id in ("enumerate", "zip", "reversed") and e.func.id not in env and not e.keywords:
+            a_ = [evaluate(a, env) for a in e.args]
+            if e.func.id == "enumerate": return [(i_, x_) for i_, x_ in enumerate(list(a_[0]), *(a_[1:2]))]
+            if e.func.id == "zip": return [tuple(x_) for x_ in zip(*[list(v_) for v_ in a_])]
+            return list(reversed(list(a_[0])))
         if isinstance(e.func, ast.Name) and e.func.id == "range" and 1 <= len(e.args) <= 3 and not e.keywords: return list(range(*[evaluate(a, env) for a in e.args]))
         if isinstance(e.func, ast.Name) and e.func.id == "isinstance" and len(e.args) == 2:
             T = {"str": str, "bool": bool, "int": int, "float": float, "list": list, "tuple": tuple, "dict": dict, "set": set}
@@ -113,10 +164,12 @@ def evaluate(e, env):
             return isinstance(evaluate(e.args[0], env), ty(e.args[1]))
         # a helper of the analysed module (env["__functions__"]: name -> FunctionDef): interpreted with its parameters bound
         fns = env.get("__functions__") or {}
-        hn = e.func.id if isinstance(e.func, ast.Name) else (e.func.attr if isinstance(e.func, ast.Attribute) and isinstance(e.func.value, ast.Name) and e.func.value.id in ("self", "cls") else None)
+        hn = e.func.id if isinstance(e.func, ast.Name) else (e.func.attr if isinstance(e.func, ast.Attribute) and isinstance(e.func.value, ast.Name) and (e.func.value.id in ("self", "cls") or (e.func.value.id[:1].isupper() and e.func.value.id not in env)) else None)
         if hn in fns and env.get("__depth__", 0) < 6:
             h = fns[hn]
-            params = [a.arg for a in h.args.args if a.arg not in ("self", "cls")]
+            params = [a.arg for a in h.args.args]
+            static_ = any(isinstance(d_, ast.Name) and d_.id == "staticmethod" for d_ in h.decorator_list)
+            if params and params[0] in ("self", "cls") and not static_ and (isinstance(e.func, ast.Attribute) or isinstance(getattr(h, "_parent", None), ast.ClassDef)): params = params[1:]
             if h.args.vararg or h.args.kwarg or len(e.args) > len(params) or any(isinstance(a, ast.Starred) for a in e.args) or any(k.arg is None for k in e.keywords): raise Unsupported("call of helper %s with star arguments" % hn)
             env2 = dict(env); env2["__depth__"] = env.get("__depth__", 0) + 1
             # dotted sample keys rooted at a parameter name of the helper must not leak in from the caller
@@ -129,13 +182,70 @@ def evaluate(e, env):
                 env2[k.arg] = evaluate(k.value, env)
             missing = [x for x in params if x not in env2]
             if missing: raise Unsupported("helper %s called without %s" % (hn, missing))
+            if any(isinstance(n_, (ast.Yield, ast.YieldFrom)) for n_ in ast.walk(h)):
+                env2["__yield__"] = []                   # a generator helper is evaluated eagerly: the list of the values it yields
+                run_block(h.body, env2); return env2["__yield__"]
             return run_block(h.body, env2)
         # a call of a sample callable supplied by the analysis (tagged stand-in for a provider / processor object)
         try: fv = evaluate(e.func, env)
         except Unsupported: fv = None
         if isinstance(fv, Callee) and not e.keywords: return fv(*[evaluate(a, env) for a in e.args])
-        if isinstance(fv, PyFn): return fv.fn(*[evaluate(a, env) for a in e.args], **{k.arg: evaluate(k.value, env) for k in e.keywords if k.arg})
+        if isinstance(fv, PyFn):
+            kw_ = {}
+            for k in e.keywords:
+                if k.arg: kw_[k.arg] = evaluate(k.value, env)
+                else: kw_.update(evaluate(k.value, env))
+            args_ = []
+            for a in e.args:
+                if isinstance(a, ast.Starred): args_.extend(list(evaluate(a.value, env)))
+                else: args_.append(evaluate(a, env))
+            return fv.fn(*args_, **kw_)
+        if isinstance(fv, Closure) and not e.keywords: return fv(*[evaluate(a, env) for a in e.args])
+        if isinstance(fv, DefClosure): return fv(*[evaluate(a, env) for a in e.args], **{k.arg: evaluate(k.value, env) for k in e.keywords if k.arg})
     raise Unsupported("expression outside the supported subset : " + ast.unparse(e)[:80])
+class Closure:
+    """value of a lambda expression of the analysed program: its body is evaluated over the defining environment when called
+    (also by a stand-in supplied by the analysis, e.g. a modelled get_children that applies the selector to sample objects)"""
+    def __init__(s, node, env): s.node, s.env = node, env
+    def __call__(s, *args):
+        ps = [a.arg for a in s.node.args.args]
+        if len(args) != len(ps) or s.node.args.vararg or s.node.args.kwarg: raise Unsupported("lambda arity")
+        env2 = dict(s.env); env2.update(zip(ps, args))
+        return evaluate(s.node.body, env2)
+class InstObj:
+    """sample instance of a sample class: its own attributes, then the class's (and its bases')"""
+    def __init__(s, cls, own=None): s.cls, s.own = cls, dict(own or {})
+    def lookup(s, n):
+        if n in s.own: return True, s.own[n]
+        return s.cls.lookup(n)
+    def __repr__(s): return "<%s object>" % s.cls.name
+class ClassObj:
+    """sample Python class: own attributes (its __dict__) and base classes; hasattr/getattr see inherited attributes,
+    setattr/delattr and __dict__ only the class's own"""
+    def __init__(s, name, own=None, bases=()): s.name, s.own, s.bases = name, dict(own or {}), list(bases)
+    def lookup(s, n):
+        if n in s.own: return True, s.own[n]
+        for b in s.bases:
+            f_, v_ = b.lookup(n)
+            if f_: return f_, v_
+        return False, None
+    def __repr__(s): return "<class %s>" % s.name
+class DefClosure:
+    """value of a nested `def` of the evaluated code: called with the (live) environment of its definition"""
+    def __init__(s, node, env): s.node, s.env = node, env
+    def __call__(s, *args, **kw):
+        h = s.node; params = [a.arg for a in h.args.args]
+        if h.args.vararg or h.args.kwarg or len(args) > len(params): raise Unsupported("call of nested function %s with star arguments" % h.name)
+        env2 = dict(s.env); env2["__depth__"] = s.env.get("__depth__", 0) + 1
+        if env2["__depth__"] > 12: raise Unsupported("recursion depth")
+        defaults = dict(zip(params[len(params) - len(h.args.defaults):], h.args.defaults))
+        for name_, dflt in defaults.items(): env2[name_] = evaluate(dflt, s.env)
+        env2.update(zip(params, args)); env2.update(kw)
+        missing = [x for x in params if x not in env2]
+        if missing: raise Unsupported("nested function %s called without %s" % (h.name, missing))
+        if any(isinstance(n_, (ast.Yield, ast.YieldFrom)) for n_ in ast.walk(h)):
+            env2["__yield__"] = []; run_block(h.body, env2); return env2["__yield__"]
+        return run_block(h.body, env2)
 class PyFn:
     """a Python function supplied by the analysis as the meaning of a name of the analysed program (a stub for a library call or
     for a function whose effect is modelled, e.g. fnmatch.fnmatch, language_descriptions)"""
@@ -164,7 +274,8 @@ def run_block(stmts, env, max_steps=2000):
         elif isinstance(tg, ast.Attribute):
             try: base = evaluate(tg.value, env)
             except Unsupported: base = None
-            if isinstance(base, dict) and any(isinstance(k_, str) and k_.startswith(".") for k_ in base) and ast.unparse(tg) not in env: base["." + tg.attr] = v      # a sample object
+            if isinstance(base, (ClassObj, InstObj)): base.own[tg.attr] = v
+            elif isinstance(base, dict) and any(isinstance(k_, str) and k_.startswith(".") for k_ in base) and ast.unparse(tg) not in env: base["." + tg.attr] = v      # a sample object
             else: env[ast.unparse(tg)] = v
         elif isinstance(tg, ast.Subscript) and not isinstance(tg.slice, ast.Slice):
             base = evaluate(tg.value, env)
@@ -199,6 +310,9 @@ def run_block(stmts, env, max_steps=2000):
             if isinstance(s, ast.Assert):
                 if not evaluate(s.test, env): raise Raised("AssertionError")
                 continue
+            if isinstance(s, ast.AugAssign) and isinstance(s.op, (ast.Add, ast.Sub)) and isinstance(s.target, (ast.Attribute, ast.Subscript)):
+                cur_ = evaluate(s.target, env); d_ = evaluate(s.value, env)
+                assign(s.target, cur_ + d_ if isinstance(s.op, ast.Add) else cur_ - d_); continue
             if isinstance(s, ast.AugAssign) and isinstance(s.op, (ast.Add, ast.Sub)) and isinstance(s.target, ast.Name):
                 env[s.target.id] = evaluate(s.target, env) + evaluate(s.value, env) if isinstance(s.op, ast.Add) else evaluate(s.target, env) - evaluate(s.value, env); continue
             if isinstance(s, ast.While):
@@ -241,8 +355,17 @@ def run_block(stmts, env, max_steps=2000):
                 finally: block(s.finalbody)
                 continue
             if isinstance(s, (ast.Global, ast.Nonlocal)): continue
+            if isinstance(s, ast.FunctionDef):
+                env[s.name] = DefClosure(s, env)
+                if s.name in (env.get("__functions__") or {}):       # the nearer definition wins over a same-named helper of an outer scope
+                    env["__functions__"] = {k_: v_ for k_, v_ in env["__functions__"].items() if k_ != s.name}
+                continue
             if isinstance(s, ast.Expr) and isinstance(s.value, ast.Call):
                 evaluate(s.value, env); continue
+            if isinstance(s, ast.Expr) and isinstance(s.value, ast.Yield) and "__yield__" in env:
+                env["__yield__"].append(evaluate(s.value.value, env) if s.value.value is not None else None); continue
+            if isinstance(s, ast.Expr) and isinstance(s.value, ast.YieldFrom) and "__yield__" in env:
+                env["__yield__"].extend(list(evaluate(s.value.value, env))); continue
             if isinstance(s, ast.Break): raise _Break()
             if isinstance(s, ast.Continue): raise _Continue()
             raise Unsupported("statement " + type(s).__name__)
